@@ -31,6 +31,8 @@ def gen_scenario(rng, kind="mixed"):
         blk = {"pre": None, "loop": (i, v), "till": till, "bare": 0,
                "post": ((rng.randrange(nvars), rng.randint(1, 3)) if rng.random() < 0.3 else None),
                "raises": rng.random() < 0.15}
+        if till is not None and rng.random() < 0.4:
+            blk["persist"] = rng.randint(1, 3)
         ops = [blk]
         if rng.random() < 0.2:
             ops.append({"pre": (rng.randrange(nvars), rng.randint(1, 3)), "loop": None, "till": None, "bare": 0, "post": None, "raises": False})
@@ -67,7 +69,7 @@ def shape(sc):
         if blk["pre"]:
             s += "s"
         if blk["loop"]:
-            s += "L" + ("t" if blk["till"] is not None else "")
+            s += "L" + ("t" if blk["till"] is not None else "") + ("r%d" % blk["persist"] if blk.get("persist") else "")
         if blk["bare"]:
             s += "w" + ("t" if blk["till"] is not None else "")
         if blk["post"]:
@@ -143,7 +145,13 @@ def run_scenario(sc, chooser=None, seed=0, max_steps=3000, rewait_limit=12):
             sched.note("call", ti, "wait", ("%d:%d" % tuple(cond)) if cond else "-", till if till is not None else "-")
             st["inside"] -= 1
             ext_before = st["external"]
+            parked_before = [x for x in (ds.raw(lk, "waiting") or []) if not ds.raw(x, "_go")]
             r = lk.wait(till=(tills[till] if till is not None else None))
+            if sched.abort:
+                return r
+            if parked_before and not any(ds.raw(x, "_go") for x in parked_before):
+                st["viol"].append("C06: thread %d waited again but did not pass the baton on: %d thread(s) were parked in wait(), none was "
+                                  "signalled (they stay parked although the lock was, or should have been, released)" % (ti, len(parked_before)))
             st["inside"] += 1
             if st["inside"] > 1:
                 st["viol"].append("C05: thread %d returned from wait() while another thread is inside the block" % ti)
@@ -177,9 +185,12 @@ def run_scenario(sc, chooser=None, seed=0, max_steps=3000, rewait_limit=12):
                                 setv(ti, blk["pre"])
                             if blk["loop"]:
                                 i, v = blk["loop"]
+                                again = blk.get("persist", 0)     # a loop that keeps its deadline: re-waits after a timeout
                                 while sigma.get(i, 0) < v:
                                     if not do_wait(ti, (i, v), blk["till"]):
-                                        break
+                                        if again <= 0:
+                                            break
+                                        again -= 1
                             for _ in range(blk["bare"]):
                                 do_wait(ti, None, blk["till"])
                             if blk["post"]:
